@@ -64,14 +64,14 @@ type E1Issue struct {
 }
 
 type e1Result struct {
-	held     map[ssa.Instruction][]LockRef // held set *before* the instruction
-	issues   []E1Issue
-	acqFuncs int // functions with at least one acquisition
-	acqSites int // lock acquisition instructions
-	unlSites int
-	deferUnl int
-	summ     map[*ssa.Function][]acqPath // param-relative acquisition summaries
-	absAcq   map[*ssa.Function]map[string][]string // abstract locks a function may acquire (transitively, sync) -> call chain
+	held        map[ssa.Instruction][]LockRef // held set *before* the instruction
+	issues      []E1Issue
+	acqFuncs    int // functions with at least one acquisition
+	acqSites    int // lock acquisition instructions
+	unlSites    int
+	deferUnl    int
+	summ        map[*ssa.Function][]acqPath           // param-relative acquisition summaries
+	absAcq      map[*ssa.Function]map[string][]string // abstract locks a function may acquire (transitively, sync) -> call chain
 	syncCallees map[ssa.Instruction][]*ssa.Function
 }
 
